@@ -12,6 +12,7 @@ package vm
 
 // Value.Type() and the WebSocket handler never touch VM state
 //@ decl inert Value
+//@ decl nonnil Value
 //@ decl inert WebSocketHandler
 
 //@ spec func wfpc(vm *VM) bool = vm != nil && 0 <= vm.pc && vm.pc <= 4611686018427387904
@@ -42,6 +43,7 @@ package vm
 //@   requires vm != nil
 //@   modifies vm.stack
 //@   ensures err == nil ==> len(vm.stack) == old(len(vm.stack)) - 1 && old(len(vm.stack)) > 0
+//@   ensures err == nil ==> result == old(vm.stack[len(vm.stack)-1]) && base(vm.stack) == old(base(vm.stack)) && off(vm.stack) == old(off(vm.stack))
 //@   ensures err != nil ==> len(vm.stack) == old(len(vm.stack)) && old(len(vm.stack)) == 0
 
 //@ func (*VM).Push
@@ -49,6 +51,8 @@ package vm
 //@   requires vm != nil
 //@   modifies vm.stack, elems(vm.stack)
 //@   ensures len(vm.stack) <= old(len(vm.stack)) + 1 && len(vm.stack) >= old(len(vm.stack))
+//@   ensures old(len(vm.stack)) < 10000 ==> len(vm.stack) == old(len(vm.stack)) + 1 && vm.stack[len(vm.stack)-1] == val
+//@   ensures forall(k, 0, old(len(vm.stack)), vm.stack[k] == old(vm.stack[k]))
 
 //@ func (*VM).step
 //@   strict
@@ -154,3 +158,201 @@ package vm
 //@ func (*VM).execAsync$1
 //@   requires maxSteps > 0
 //@   callpre (*vm.VM).executeRaw arg0.maxSteps == maxSteps
+
+// ---- operators (C02, C04): the VM against the language oracle (contracts/lang.spec), the same one the
+// ---- interpreter's operators are verified against (pkg/interpreter/contracts_verif.go)
+//@ spec func kindV(x Value) int = ite(typeis(x, NullValue), 0, ite(typeis(x, IntValue), 1, ite(typeis(x, FloatValue), 2, ite(typeis(x, StringValue), 3, ite(typeis(x, BoolValue), 4, ite(typeis(x, ArrayValue), 5, ite(typeis(x, ObjectValue), 6, 7)))))))
+//@ spec func intV(x Value) int64 = x.(IntValue).Val
+//@ spec func fltV(x Value) float64 = x.(FloatValue).Val
+//@ spec func strV(x Value) string = x.(StringValue).Val
+//@ spec func boolV(x Value) bool = x.(BoolValue).Val
+//@ spec func toFV(x Value) float64 = ite(typeis(x, IntValue), float64(x.(IntValue).Val), x.(FloatValue).Val)
+//@ spec func top(vm *VM) Value = vm.stack[len(vm.stack)-1]
+//@ spec func snd(vm *VM) Value = vm.stack[len(vm.stack)-2]
+//@ spec func eqV(l Value, r Value) bool = eqVal(kindV(l), intV(l), toFV(l), strV(l), boolV(l), kindV(r), intV(r), toFV(r), strV(r), boolV(r))
+//@ func (*VM).execAdd
+//@   strict
+//@   requires vm != nil
+//@   modifies vm.stack, elems(vm.stack)
+//@   ensures old(len(vm.stack)) < 2 ==> result != nil
+//@   ensures old(len(vm.stack)) >= 2 && old(len(vm.stack)) <= 10000 ==> (result == nil) == (addKind(kindV(old(snd(vm))), kindV(old(top(vm)))) != -1)
+//@   ensures result == nil && old(len(vm.stack)) <= 10000 ==> len(vm.stack) == old(len(vm.stack)) - 1
+//@   ensures forall(k, 0, old(len(vm.stack)) - 2, vm.stack[k] == old(vm.stack[k]))
+//@   ensures result == nil && old(len(vm.stack)) <= 10000 ==> kindV(top(vm)) == addKind(kindV(old(snd(vm))), kindV(old(top(vm))))
+//@   ensures result == nil && old(len(vm.stack)) <= 10000 && kindV(top(vm)) == 1 ==> intV(top(vm)) == intAdd(intV(old(snd(vm))), intV(old(top(vm))))
+//@   ensures result == nil && old(len(vm.stack)) <= 10000 && kindV(top(vm)) == 2 ==> fltV(top(vm)) == toFV(old(snd(vm))) + toFV(old(top(vm)))
+//@   ensures result == nil && old(len(vm.stack)) <= 10000 && kindV(top(vm)) == 3 ==> strV(top(vm)) == strV(old(snd(vm))) + strV(old(top(vm)))
+//@   ensures result == nil && old(len(vm.stack)) <= 10000 && kindV(top(vm)) == 5 ==> len(top(vm).(ArrayValue).Val) == len(old(snd(vm)).(ArrayValue).Val) + len(old(top(vm)).(ArrayValue).Val)
+//@ func (*VM).execSub
+//@   strict
+//@   requires vm != nil
+//@   modifies vm.stack, elems(vm.stack)
+//@   ensures old(len(vm.stack)) < 2 ==> result != nil
+//@   ensures old(len(vm.stack)) >= 2 && old(len(vm.stack)) <= 10000 ==> (result == nil) == (numKind(kindV(old(snd(vm))), kindV(old(top(vm)))) != -1)
+//@   ensures result == nil && old(len(vm.stack)) <= 10000 ==> len(vm.stack) == old(len(vm.stack)) - 1
+//@   ensures forall(k, 0, old(len(vm.stack)) - 2, vm.stack[k] == old(vm.stack[k]))
+//@   ensures result == nil && old(len(vm.stack)) <= 10000 ==> kindV(top(vm)) == numKind(kindV(old(snd(vm))), kindV(old(top(vm))))
+//@   ensures result == nil && old(len(vm.stack)) <= 10000 && kindV(top(vm)) == 1 ==> intV(top(vm)) == intSub(intV(old(snd(vm))), intV(old(top(vm))))
+//@   ensures result == nil && old(len(vm.stack)) <= 10000 && kindV(top(vm)) == 2 ==> fltV(top(vm)) == toFV(old(snd(vm))) - toFV(old(top(vm)))
+//@ func (*VM).execMul
+//@   strict
+//@   requires vm != nil
+//@   modifies vm.stack, elems(vm.stack)
+//@   ensures old(len(vm.stack)) < 2 ==> result != nil
+//@   ensures old(len(vm.stack)) >= 2 && old(len(vm.stack)) <= 10000 ==> (result == nil) == (numKind(kindV(old(snd(vm))), kindV(old(top(vm)))) != -1)
+//@   ensures result == nil && old(len(vm.stack)) <= 10000 ==> len(vm.stack) == old(len(vm.stack)) - 1
+//@   ensures forall(k, 0, old(len(vm.stack)) - 2, vm.stack[k] == old(vm.stack[k]))
+//@   ensures result == nil && old(len(vm.stack)) <= 10000 ==> kindV(top(vm)) == numKind(kindV(old(snd(vm))), kindV(old(top(vm))))
+//@   ensures result == nil && old(len(vm.stack)) <= 10000 && kindV(top(vm)) == 1 ==> intV(top(vm)) == intMul(intV(old(snd(vm))), intV(old(top(vm))))
+//@   ensures result == nil && old(len(vm.stack)) <= 10000 && kindV(top(vm)) == 2 ==> fltV(top(vm)) == toFV(old(snd(vm))) * toFV(old(top(vm)))
+//@ func (*VM).execDiv
+//@   strict
+//@   requires vm != nil
+//@   modifies vm.stack, elems(vm.stack)
+//@   ensures old(len(vm.stack)) < 2 ==> result != nil
+//@   ensures old(len(vm.stack)) >= 2 && old(len(vm.stack)) <= 10000 ==> (result == nil) == (numKind(kindV(old(snd(vm))), kindV(old(top(vm)))) == 1 && intV(old(top(vm))) != 0 || numKind(kindV(old(snd(vm))), kindV(old(top(vm)))) == 2 && !feq(toFV(old(top(vm))), 0.0))
+//@   ensures result == nil && old(len(vm.stack)) <= 10000 ==> len(vm.stack) == old(len(vm.stack)) - 1
+//@   ensures forall(k, 0, old(len(vm.stack)) - 2, vm.stack[k] == old(vm.stack[k]))
+//@   ensures result == nil && old(len(vm.stack)) <= 10000 ==> kindV(top(vm)) == numKind(kindV(old(snd(vm))), kindV(old(top(vm))))
+//@   ensures result == nil && old(len(vm.stack)) <= 10000 && kindV(top(vm)) == 1 ==> intV(top(vm)) == intDiv(intV(old(snd(vm))), intV(old(top(vm))))
+//@   ensures result == nil && old(len(vm.stack)) <= 10000 && kindV(top(vm)) == 2 ==> fltV(top(vm)) == toFV(old(snd(vm))) / toFV(old(top(vm)))
+//@ func (*VM).execMod
+//@   strict
+//@   requires vm != nil
+//@   modifies vm.stack, elems(vm.stack)
+//@   ensures old(len(vm.stack)) < 2 ==> result != nil
+//@   ensures old(len(vm.stack)) >= 2 && old(len(vm.stack)) <= 10000 ==> (result == nil) == (numKind(kindV(old(snd(vm))), kindV(old(top(vm)))) == 1 && intV(old(top(vm))) != 0 || numKind(kindV(old(snd(vm))), kindV(old(top(vm)))) == 2 && !feq(toFV(old(top(vm))), 0.0))
+//@   ensures result == nil && old(len(vm.stack)) <= 10000 ==> len(vm.stack) == old(len(vm.stack)) - 1
+//@   ensures forall(k, 0, old(len(vm.stack)) - 2, vm.stack[k] == old(vm.stack[k]))
+//@   ensures result == nil && old(len(vm.stack)) <= 10000 ==> kindV(top(vm)) == numKind(kindV(old(snd(vm))), kindV(old(top(vm))))
+//@   ensures result == nil && old(len(vm.stack)) <= 10000 && kindV(top(vm)) == 1 ==> intV(top(vm)) == intMod(intV(old(snd(vm))), intV(old(top(vm))))
+//@   ensures result == nil && old(len(vm.stack)) <= 10000 && kindV(top(vm)) == 2 ==> fltV(top(vm)) == libcall(math.Mod, toFV(old(snd(vm))), toFV(old(top(vm))))
+//@ func (*VM).execLt
+//@   strict
+//@   requires vm != nil
+//@   modifies vm.stack, elems(vm.stack)
+//@   ensures old(len(vm.stack)) < 2 ==> result != nil
+//@   ensures old(len(vm.stack)) >= 2 && old(len(vm.stack)) <= 10000 ==> (result == nil) == (cmpKind(kindV(old(snd(vm))), kindV(old(top(vm)))) != -1)
+//@   ensures result == nil && old(len(vm.stack)) <= 10000 ==> len(vm.stack) == old(len(vm.stack)) - 1
+//@   ensures forall(k, 0, old(len(vm.stack)) - 2, vm.stack[k] == old(vm.stack[k]))
+//@   ensures result == nil && old(len(vm.stack)) <= 10000 ==> kindV(top(vm)) == 4
+//@   ensures result == nil && old(len(vm.stack)) <= 10000 && kindV(old(snd(vm))) == 1 && kindV(old(top(vm))) == 1 ==> boolV(top(vm)) == (intV(old(snd(vm))) < intV(old(top(vm))))
+//@   ensures result == nil && old(len(vm.stack)) <= 10000 && isNum(kindV(old(snd(vm)))) && !(kindV(old(snd(vm))) == 1 && kindV(old(top(vm))) == 1) ==> boolV(top(vm)) == (toFV(old(snd(vm))) < toFV(old(top(vm))))
+//@   ensures result == nil && old(len(vm.stack)) <= 10000 && kindV(old(snd(vm))) == 3 ==> boolV(top(vm)) == strlt(strV(old(snd(vm))), strV(old(top(vm))))
+//@ func (*VM).execLe
+//@   strict
+//@   requires vm != nil
+//@   modifies vm.stack, elems(vm.stack)
+//@   ensures old(len(vm.stack)) < 2 ==> result != nil
+//@   ensures old(len(vm.stack)) >= 2 && old(len(vm.stack)) <= 10000 ==> (result == nil) == (cmpKind(kindV(old(snd(vm))), kindV(old(top(vm)))) != -1)
+//@   ensures result == nil && old(len(vm.stack)) <= 10000 ==> len(vm.stack) == old(len(vm.stack)) - 1
+//@   ensures forall(k, 0, old(len(vm.stack)) - 2, vm.stack[k] == old(vm.stack[k]))
+//@   ensures result == nil && old(len(vm.stack)) <= 10000 ==> kindV(top(vm)) == 4
+//@   ensures result == nil && old(len(vm.stack)) <= 10000 && kindV(old(snd(vm))) == 1 && kindV(old(top(vm))) == 1 ==> boolV(top(vm)) == (intV(old(snd(vm))) <= intV(old(top(vm))))
+//@   ensures result == nil && old(len(vm.stack)) <= 10000 && isNum(kindV(old(snd(vm)))) && !(kindV(old(snd(vm))) == 1 && kindV(old(top(vm))) == 1) ==> boolV(top(vm)) == (toFV(old(snd(vm))) <= toFV(old(top(vm))))
+//@   ensures result == nil && old(len(vm.stack)) <= 10000 && kindV(old(snd(vm))) == 3 ==> boolV(top(vm)) == !strlt(strV(old(top(vm))), strV(old(snd(vm))))
+//@ func (*VM).execGt
+//@   strict
+//@   requires vm != nil
+//@   modifies vm.stack, elems(vm.stack)
+//@   ensures old(len(vm.stack)) < 2 ==> result != nil
+//@   ensures old(len(vm.stack)) >= 2 && old(len(vm.stack)) <= 10000 ==> (result == nil) == (cmpKind(kindV(old(snd(vm))), kindV(old(top(vm)))) != -1)
+//@   ensures result == nil && old(len(vm.stack)) <= 10000 ==> len(vm.stack) == old(len(vm.stack)) - 1
+//@   ensures forall(k, 0, old(len(vm.stack)) - 2, vm.stack[k] == old(vm.stack[k]))
+//@   ensures result == nil && old(len(vm.stack)) <= 10000 ==> kindV(top(vm)) == 4
+//@   ensures result == nil && old(len(vm.stack)) <= 10000 && kindV(old(snd(vm))) == 1 && kindV(old(top(vm))) == 1 ==> boolV(top(vm)) == (intV(old(snd(vm))) > intV(old(top(vm))))
+//@   ensures result == nil && old(len(vm.stack)) <= 10000 && isNum(kindV(old(snd(vm)))) && !(kindV(old(snd(vm))) == 1 && kindV(old(top(vm))) == 1) ==> boolV(top(vm)) == (toFV(old(snd(vm))) > toFV(old(top(vm))))
+//@   ensures result == nil && old(len(vm.stack)) <= 10000 && kindV(old(snd(vm))) == 3 ==> boolV(top(vm)) == strlt(strV(old(top(vm))), strV(old(snd(vm))))
+//@ func (*VM).execGe
+//@   strict
+//@   requires vm != nil
+//@   modifies vm.stack, elems(vm.stack)
+//@   ensures old(len(vm.stack)) < 2 ==> result != nil
+//@   ensures old(len(vm.stack)) >= 2 && old(len(vm.stack)) <= 10000 ==> (result == nil) == (cmpKind(kindV(old(snd(vm))), kindV(old(top(vm)))) != -1)
+//@   ensures result == nil && old(len(vm.stack)) <= 10000 ==> len(vm.stack) == old(len(vm.stack)) - 1
+//@   ensures forall(k, 0, old(len(vm.stack)) - 2, vm.stack[k] == old(vm.stack[k]))
+//@   ensures result == nil && old(len(vm.stack)) <= 10000 ==> kindV(top(vm)) == 4
+//@   ensures result == nil && old(len(vm.stack)) <= 10000 && kindV(old(snd(vm))) == 1 && kindV(old(top(vm))) == 1 ==> boolV(top(vm)) == (intV(old(snd(vm))) >= intV(old(top(vm))))
+//@   ensures result == nil && old(len(vm.stack)) <= 10000 && isNum(kindV(old(snd(vm)))) && !(kindV(old(snd(vm))) == 1 && kindV(old(top(vm))) == 1) ==> boolV(top(vm)) == (toFV(old(snd(vm))) >= toFV(old(top(vm))))
+//@   ensures result == nil && old(len(vm.stack)) <= 10000 && kindV(old(snd(vm))) == 3 ==> boolV(top(vm)) == !strlt(strV(old(snd(vm))), strV(old(top(vm))))
+//@ func (*VM).execEq
+//@   strict
+//@   requires vm != nil
+//@   modifies vm.stack, elems(vm.stack)
+//@   ensures old(len(vm.stack)) < 2 ==> result != nil
+//@   ensures old(len(vm.stack)) >= 2 && old(len(vm.stack)) <= 10000 ==> (result == nil) == (true)
+//@   ensures result == nil && old(len(vm.stack)) <= 10000 ==> len(vm.stack) == old(len(vm.stack)) - 1
+//@   ensures forall(k, 0, old(len(vm.stack)) - 2, vm.stack[k] == old(vm.stack[k]))
+//@   ensures result == nil && old(len(vm.stack)) <= 10000 ==> kindV(top(vm)) == 4
+//@   ensures result == nil && old(len(vm.stack)) <= 10000 && kindV(old(snd(vm))) != 7 && kindV(old(top(vm))) != 7 ==> boolV(top(vm)) == eqV(old(snd(vm)), old(top(vm)))
+//@ func (*VM).execNe
+//@   strict
+//@   requires vm != nil
+//@   modifies vm.stack, elems(vm.stack)
+//@   ensures old(len(vm.stack)) < 2 ==> result != nil
+//@   ensures old(len(vm.stack)) >= 2 && old(len(vm.stack)) <= 10000 ==> (result == nil) == (true)
+//@   ensures result == nil && old(len(vm.stack)) <= 10000 ==> len(vm.stack) == old(len(vm.stack)) - 1
+//@   ensures forall(k, 0, old(len(vm.stack)) - 2, vm.stack[k] == old(vm.stack[k]))
+//@   ensures result == nil && old(len(vm.stack)) <= 10000 ==> kindV(top(vm)) == 4
+//@   ensures result == nil && old(len(vm.stack)) <= 10000 && kindV(old(snd(vm))) != 7 && kindV(old(top(vm))) != 7 ==> boolV(top(vm)) == !eqV(old(snd(vm)), old(top(vm)))
+//@ func (*VM).execAnd
+//@   strict
+//@   requires vm != nil
+//@   modifies vm.stack, elems(vm.stack)
+//@   ensures old(len(vm.stack)) < 2 ==> result != nil
+//@   ensures old(len(vm.stack)) >= 2 && old(len(vm.stack)) <= 10000 ==> (result == nil) == (kindV(old(snd(vm))) == 4 && kindV(old(top(vm))) == 4)
+//@   ensures result == nil && old(len(vm.stack)) <= 10000 ==> len(vm.stack) == old(len(vm.stack)) - 1
+//@   ensures forall(k, 0, old(len(vm.stack)) - 2, vm.stack[k] == old(vm.stack[k]))
+//@   ensures result == nil && old(len(vm.stack)) <= 10000 ==> kindV(top(vm)) == 4 && boolV(top(vm)) == (boolV(old(snd(vm))) && boolV(old(top(vm))))
+//@ func (*VM).execOr
+//@   strict
+//@   requires vm != nil
+//@   modifies vm.stack, elems(vm.stack)
+//@   ensures old(len(vm.stack)) < 2 ==> result != nil
+//@   ensures old(len(vm.stack)) >= 2 && old(len(vm.stack)) <= 10000 ==> (result == nil) == (kindV(old(snd(vm))) == 4 && kindV(old(top(vm))) == 4)
+//@   ensures result == nil && old(len(vm.stack)) <= 10000 ==> len(vm.stack) == old(len(vm.stack)) - 1
+//@   ensures forall(k, 0, old(len(vm.stack)) - 2, vm.stack[k] == old(vm.stack[k]))
+//@   ensures result == nil && old(len(vm.stack)) <= 10000 ==> kindV(top(vm)) == 4 && boolV(top(vm)) == (boolV(old(snd(vm))) || boolV(old(top(vm))))
+//@ func (*VM).execNot
+//@   strict
+//@   requires vm != nil
+//@   modifies vm.stack, elems(vm.stack)
+//@   ensures old(len(vm.stack)) < 1 ==> result != nil
+//@   ensures old(len(vm.stack)) >= 1 && old(len(vm.stack)) <= 10000 ==> (result == nil) == (kindV(old(top(vm))) == 4)
+//@   ensures result == nil && old(len(vm.stack)) <= 10000 ==> len(vm.stack) == old(len(vm.stack))
+//@   ensures forall(k, 0, old(len(vm.stack)) - 1, vm.stack[k] == old(vm.stack[k]))
+//@   ensures result == nil && old(len(vm.stack)) <= 10000 ==> kindV(top(vm)) == 4 && boolV(top(vm)) == !boolV(old(top(vm)))
+//@ func (*VM).execNeg
+//@   strict
+//@   requires vm != nil
+//@   modifies vm.stack, elems(vm.stack)
+//@   ensures old(len(vm.stack)) < 1 ==> result != nil
+//@   ensures old(len(vm.stack)) >= 1 && old(len(vm.stack)) <= 10000 ==> (result == nil) == (isNum(kindV(old(top(vm)))))
+//@   ensures result == nil && old(len(vm.stack)) <= 10000 ==> len(vm.stack) == old(len(vm.stack))
+//@   ensures forall(k, 0, old(len(vm.stack)) - 1, vm.stack[k] == old(vm.stack[k]))
+//@   ensures result == nil && old(len(vm.stack)) <= 10000 ==> kindV(top(vm)) == kindV(old(top(vm)))
+//@   ensures result == nil && old(len(vm.stack)) <= 10000 && kindV(old(top(vm))) == 1 ==> intV(top(vm)) == intNeg(intV(old(top(vm))))
+//@   ensures result == nil && old(len(vm.stack)) <= 10000 && kindV(old(top(vm))) == 2 ==> fltV(top(vm)) == fneg(fltV(old(top(vm))))
+//@ func (*VM).valuesEqual
+//@   strict
+//@   modifies nothing
+//@   ensures kindV(a) != 7 && kindV(b) != 7 && !(isNum(kindV(a)) && isNum(kindV(b)) && kindV(a) != kindV(b)) ==> result == eqV(a, b)
+//@   ensures isNum(kindV(a)) && isNum(kindV(b)) && kindV(a) != kindV(b) ==> result == feq(toFV(a), toFV(b))
+
+// opcode dispatch (C02): every operator opcode reaches the operator function of its own name
+//@ func (*VM).executeInstruction
+//@   callpre (*vm.VM).execAdd opcode == OpAdd
+//@   callpre (*vm.VM).execSub opcode == OpSub
+//@   callpre (*vm.VM).execMul opcode == OpMul
+//@   callpre (*vm.VM).execDiv opcode == OpDiv
+//@   callpre (*vm.VM).execMod opcode == OpMod
+//@   callpre (*vm.VM).execEq opcode == OpEq
+//@   callpre (*vm.VM).execNe opcode == OpNe
+//@   callpre (*vm.VM).execLt opcode == OpLt
+//@   callpre (*vm.VM).execLe opcode == OpLe
+//@   callpre (*vm.VM).execGt opcode == OpGt
+//@   callpre (*vm.VM).execGe opcode == OpGe
+//@   callpre (*vm.VM).execAnd opcode == OpAnd
+//@   callpre (*vm.VM).execOr opcode == OpOr
+//@   callpre (*vm.VM).execNot opcode == OpNot
+//@   callpre (*vm.VM).execNeg opcode == OpNeg
